@@ -17,7 +17,9 @@ PROP = {
         "Multi.C04.self_assign_id",
         "Multi.C04.swap_exchanges",
         "Multi.C04.view_ctor_copies",
-        "Multi.C04.abs_step_views_partial",
+        "Multi.C04.abs_step_views",
+        "Multi.C04.abs_step_conv_stdswap",
+        "Multi.C04.assign_list_in_place_partial",
     ],
     "harnesses": [vc.value_harness(["int", "str", "int+full", "str+full"], 4000, 160000)],
     "hooks": ["compile_probes", "op_histogram"],
